@@ -1691,14 +1691,12 @@ impl Planner {
                 LogicalAggregateFunction::Count | LogicalAggregateFunction::CountNonNull => {
                     LogicalType::Int64
                 }
-                LogicalAggregateFunction::Sum => LogicalType::Int64,
+                // SUM yields Int64 or Float64 depending on its inputs; MIN/MAX preserve the input
+                // type (numbers, strings, ...). A typed Int64 output column would silently turn
+                // every non-integer result into 0, so these columns must accept any value.
+                LogicalAggregateFunction::Sum => LogicalType::Any,
                 LogicalAggregateFunction::Avg => LogicalType::Float64,
-                LogicalAggregateFunction::Min | LogicalAggregateFunction::Max => {
-                    // MIN/MAX preserve input type; use Int64 as default for numeric comparisons
-                    // since the aggregate can return any Value type, but the most common case
-                    // is numeric values from property expressions
-                    LogicalType::Int64
-                }
+                LogicalAggregateFunction::Min | LogicalAggregateFunction::Max => LogicalType::Any,
                 LogicalAggregateFunction::Collect => LogicalType::Any, // List type (using Any since List is a complex type)
                 // Statistical functions return Float64
                 LogicalAggregateFunction::StdDev
